@@ -64,6 +64,7 @@ class State:
         self.old: Optional["State"] = None
         self.path: list[str] = []
         self.ghost_idx: dict[int, str] = {}
+        self.loop_entry: Optional["State"] = None  # state on entry to the innermost enclosing loop (for pre_loop(...))
 
     def fork(self) -> "State":
         s = State()
@@ -72,6 +73,7 @@ class State:
         s.pc = list(self.pc)
         s.old = self.old
         s.path = list(self.path)
+        s.loop_entry = self.loop_entry
         return s
 
     def snapshot(self) -> "State":
@@ -197,6 +199,8 @@ class Contract:
     witness: dict[str, str] = field(default_factory=dict)  # named terms whose model values are reported (for replay)
     hide: list[str] = field(default_factory=list)  # spec functions whose definitions stay opaque in this function's VCs
     prelude: list[str] = field(default_factory=list)  # optional prelude axiom groups to include (e.g. "idx_app_rev")
+    source_name: str = ""  # qualified name in the source when it differs from the contract's key (e.g. a property setter)
+    decorator: str = ""  # pick the definition carrying this decorator (e.g. "logic_gate_tree.setter")
 
 
 @dataclass
@@ -870,6 +874,8 @@ class Engine:
             self.check(st, z3.Not(self.pre.opt_is_none(coll.ty, coll.t)), "TypeError", "`in` on None")
             coll = V(self.pre.opt_val(coll.ty, coll.t), coll.ty.inner)
         ty = coll.ty
+        if ty.name in self.contains_handlers:
+            return self.contains_handlers[ty.name](self, coll, x, st)
         if isinstance(ty, MapTy):
             return self.pre.mapf(ty, "has")(coll.t, self.coerce(x, ty.key).t)
         if isinstance(ty, SetTy):
@@ -990,6 +996,50 @@ class Engine:
         self.assume(st, z3.ForAll([bv], z3.Implies(inb, bv <= last(kv.t)), patterns=[self.seq_idx(xs, bv).t]))
         self.trusted_used.add("dict comprehension: keys are exactly the produced keys, the last producer wins; insertion order of keys is left unspecified")
         return d
+
+    def e_SetComp(self, n: ast.SetComp, st: State) -> V:
+        """{f(x) for x in S if p(x)}: a fresh set R with  y in R  <=>  exists x in S. p(x) and f(x) == y
+        (witness function for the => direction)."""
+        if len(n.generators) != 1:
+            raise Unsupported("set comprehension with several generators", n)
+        gen = n.generators[0]
+        k = self.site()
+        coll = self.expr(gen.iter, st)
+        if isinstance(coll.ty, SetTy):
+            ety = coll.ty.elem
+            x = z3.Const(f"sc${k}", self.sort(ety))
+            dom = self.pre.setf(coll.ty, "mem")(coll.t, x)
+            elemv = V(x, ety)
+        else:
+            xs = self.as_seq(coll, st)
+            ety = xs.ty.elem
+            x = z3.Const(f"sc${k}", self.sort(ety))
+            dom = self.pre.seqf(xs.ty, "count")(xs.t, x) >= 1
+            elemv = V(x, ety)
+        st2 = st.fork()
+        st2.old = st.old
+        st2.env.update(self.bind_target(gen.target, elemv))
+        st2.pc.append(dom)
+        saved = self.pending_raises
+        self.pending_raises = []
+        conds = [self.truthy(self.expr(c, st2)) for c in gen.ifs]
+        for c in conds:
+            st2.pc.append(c)
+        elt = self.expr(n.elt, st2)
+        inner = self.pending_raises
+        self.pending_raises = saved
+        if inner and not self.mode_spec:
+            raise Unsupported("possibly-raising expression inside a set comprehension", n)
+        rty = SetTy(elt.ty)
+        R = self.fresh(f"scomp{k}", rty)
+        mem = self.pre.setf(rty, "mem")
+        cond = z3.And(dom, *conds)
+        self.assume(st, z3.ForAll([x], z3.Implies(cond, mem(R.t, elt.t)), patterns=[dom] if not z3.is_and(dom) else []))
+        y = z3.Const(f"sy${k}", self.sort(elt.ty))
+        wit = z3.Function(f"scwit{k}", self.sort(elt.ty), self.sort(ety))
+        self.assume(st, z3.ForAll([y], z3.Implies(mem(R.t, y), z3.And(z3.substitute(cond, (x, wit(y))), z3.substitute(elt.t, (x, wit(y))) == y)),
+                                  patterns=[mem(R.t, y)]))
+        return R
 
     def e_Set(self, n: ast.Set, st: State) -> V:
         items = [self.expr(e, st) for e in n.elts]
@@ -1380,7 +1430,68 @@ class Engine:
         return False
 
     def comprehension_nested(self, n: ast.ListComp | ast.GeneratorExp, st: State) -> V:
-        raise Unsupported("nested comprehension (give the function a handler)", n)
+        """[f(x) for x in xs for _ in range(g(x))]  (each element repeated g(x) times), f and g closed over x and
+        immutable fields: a global function rep(xs) with
+            rep([]) = [],  rep(a + b) = rep(a) + rep(b),  count(rep([x]), y) = (max(g(x), 0) if y == f(x) else 0),
+            len(rep([x])) = max(g(x), 0),  every element of rep([x]) is f(x)."""
+        import hashlib as _h
+        gens = n.generators
+        ok = (len(gens) == 2 and not gens[0].ifs and not gens[1].ifs and isinstance(gens[1].iter, ast.Call)
+              and isinstance(gens[1].iter.func, ast.Name) and gens[1].iter.func.id == "range" and len(gens[1].iter.args) == 1
+              and isinstance(gens[0].target, ast.Name) and isinstance(gens[1].target, ast.Name))
+        if not ok:
+            raise Unsupported("nested comprehension other than [f(x) for x in xs for _ in range(g(x))]", n)
+        xname, uname = gens[0].target.id, gens[1].target.id
+        used = {x.id for x in ast.walk(n.elt) if isinstance(x, ast.Name)} | {x.id for x in ast.walk(gens[1].iter.args[0]) if isinstance(x, ast.Name)}
+        if uname in used:
+            raise Unsupported("nested comprehension whose element depends on the repetition index", n)
+        xs = self.as_seq(self.expr(gens[0].iter, st), st)
+
+        class _R(ast.NodeTransformer):
+            def visit_Name(s_, node: ast.Name) -> Any:  # noqa: N805
+                return ast.copy_location(ast.Name(id="_v0" if node.id == xname else node.id, ctx=node.ctx), node)
+        norm = lambda e: ast.unparse(_R().visit(copy.deepcopy(e)))  # noqa: E731
+        tag = _h.sha1(f"rep|{xs.ty.name}|{norm(n.elt)}|{norm(gens[1].iter.args[0])}".encode()).hexdigest()[:8]
+        cache = self.__dict__.setdefault("_rep_comp", {})
+        if tag not in cache:
+            S = self.sort(xs.ty)
+            x = z3.Const(f"rx_{tag}", self.sort(xs.ty.elem))
+            gst = State()
+            gst.env[xname] = V(x, xs.ty.elem)
+            saved_mode, saved_pr, saved_fr = self.mode_spec, self.pending_raises, getattr(self, "fields_read", None)
+            self.mode_spec, self.pending_raises, self.fields_read = True, [], set()
+            try:
+                f = self.expr(n.elt, gst)
+                g = self.coerce(self.expr(gens[1].iter.args[0], gst), INT)
+                reads = set(self.fields_read)
+            finally:
+                self.mode_spec, self.pending_raises, self.fields_read = saved_mode, saved_pr, saved_fr
+            if any(fl in rec.mutable for (rec, fl) in reads):
+                raise Unsupported("nested comprehension over mutable fields", n)
+            rty = SeqTy(f.ty)
+            R = self.sort(rty)
+            rep = z3.Function(f"rep_{tag}", S, R)
+            A = self.pre.ax
+            a, b = z3.Const(f"ra_{tag}", S), z3.Const(f"rb_{tag}", S)
+            y = z3.Const(f"ry_{tag}", self.sort(f.ty))
+            i = z3.Int(f"ri_{tag}")
+            emp_x, emp_r = self.pre.fn[f"empty_{xs.ty.name}"], self.pre.fn[f"empty_{rty.name}"]
+            unit_x, app_x, app_r = self.pre.seqf(xs.ty, "unit"), self.pre.seqf(xs.ty, "app"), self.pre.seqf(rty, "app")
+            ln_r, idx_r, cnt_r = self.pre.seqf(rty, "len"), self.pre.seqf(rty, "idx"), self.pre.seqf(rty, "count")
+            gpos = z3.If(g.t > 0, g.t, 0)
+            A(f"rep.{tag}.empty", rep(emp_x) == emp_r)
+            A(f"rep.{tag}.app", z3.ForAll([a, b], rep(app_x(a, b)) == app_r(rep(a), rep(b)), patterns=[rep(app_x(a, b))]))
+            A(f"rep.{tag}.unit_len", z3.ForAll([x], ln_r(rep(unit_x(x))) == gpos, patterns=[rep(unit_x(x))]))
+            A(f"rep.{tag}.unit_idx", z3.ForAll([x, i], z3.Implies(z3.And(0 <= i, i < gpos), idx_r(rep(unit_x(x)), i) == f.t),
+                                               patterns=[idx_r(rep(unit_x(x)), i)]))
+            A(f"rep.{tag}.unit_count", z3.ForAll([x, y], cnt_r(rep(unit_x(x)), y) == z3.If(y == f.t, gpos, 0), patterns=[cnt_r(rep(unit_x(x)), y)]))
+            self.trusted_used.add("[f(x) for x in xs for _ in range(g(x))] denotes the list in which each f(x) is repeated max(g(x), 0) times, in order")
+            cache[tag] = (rep, rty)
+        rep, rty = cache[tag]
+        # exceptions of f / g on some element are not modelled: only total element expressions are accepted
+        r = V(rep(xs.t), rty)
+        self.mention(r)
+        return r
 
     def e_ListComp(self, n: ast.ListComp, st: State) -> V:
         return self.comprehension(n, st)
@@ -1406,6 +1517,15 @@ class Engine:
                 if z3.is_expr(v2.t) and z3.is_const(v2.t) and "$" in str(v2.t):
                     st2.env[k2] = v2
             return self.expr(n.args[0], st2)
+        if isinstance(f, ast.Name) and f.id == "pre_loop" and self.mode_spec:
+            if st.loop_entry is None:
+                raise ContractError("pre_loop() outside a loop invariant")
+            st2 = st.loop_entry.fork()
+            for k2, v2 in st.env.items():  # bound variables of enclosing quantifiers stay visible
+                if k2 not in st2.env or (z3.is_expr(v2.t) and self.has_bound(v2.t)):
+                    st2.env[k2] = v2
+            st2.pc = st.pc
+            return self.expr(n.args[0], st2)
         if isinstance(f, ast.Name) and f.id == "implies" and self.mode_spec:
             a = self.truthy(self.expr(n.args[0], st))
             saved = list(st.pc)
@@ -1424,6 +1544,8 @@ class Engine:
                 return self.builtins[name](self, n, st)
             if name in self.tenv.records and name in self.ctor_handlers:
                 return self.ctor_handlers[name](self, n, st)
+            if name in self.tenv.records and f"{name}.__init__" in self.contracts:
+                return self.construct(self.tenv.records[name], n, st)
             if isinstance(self.tenv.aliases.get(name), StructTy):
                 sty = self.tenv.aliases[name]
                 if n.args or {kw.arg for kw in n.keywords} != set(sty.fields):
@@ -1448,6 +1570,33 @@ class Engine:
                     return self.call_contract(self.contracts[q], n, st, obj)
             raise Unsupported(f"method {key}", n)
         raise Unsupported("call form", n)
+
+    def construct(self, rec: RecTy, n: ast.Call, st: State) -> V:
+        """`Cls(args)` for a class whose __init__ is under contract: a fresh reference, distinct from every object of that
+        class reachable (one level) from the variables in scope, then the contract of __init__ (its `modifies` must come with
+        frame clauses for the other objects)."""
+        if self.mode_spec:
+            raise ContractError(f"constructor {rec.name}(...) in a clause")
+        r = self.fresh(f"new.{rec.name}", rec)
+        for nm, v in list(st.env.items()):
+            if v.ty == rec:
+                self.assume(st, v.t != r.t)
+            elif isinstance(v.ty, OptTy) and v.ty.inner == rec:
+                self.assume(st, z3.Or(self.pre.opt_is_none(v.ty, v.t), self.pre.opt_val(v.ty, v.t) != r.t))
+            elif isinstance(v.ty, MapTy) and v.ty.val == rec:
+                k = z3.Const(f"fk${self.site()}", self.sort(v.ty.key))
+                has, get = self.pre.mapf(v.ty, "has"), self.pre.mapf(v.ty, "get")
+                self.assume(st, z3.ForAll([k], z3.Implies(has(v.t, k), get(v.t, k) != r.t), patterns=[get(v.t, k)]))
+            elif isinstance(v.ty, SeqTy) and v.ty.elem == rec:
+                i = z3.Int(f"fi${self.site()}")
+                self.assume(st, z3.ForAll([i], self.seq_idx(v, i).t != r.t, patterns=[self.seq_idx(v, i).t]))
+            elif isinstance(v.ty, SetTy) and v.ty.elem == rec:
+                self.assume(st, z3.Not(self.pre.setf(v.ty, "mem")(v.t, r.t)))
+        self.trusted_used.add("object allocation: a newly constructed object is distinct from every object of its class held by the variables in scope "
+                              "(directly, or as an element / value of a list, dict or set held by one)")
+        c = self.contracts[f"{rec.name}.__init__"]
+        self.call_contract(c, n, st, r)
+        return r
 
     def ty_family(self, ty: Ty) -> str:
         if isinstance(ty, SeqTy):
@@ -1549,11 +1698,19 @@ class Engine:
             saved = self.mode_spec
             self.mode_spec = True
             self.limit_spec = sp.name
+            saved_fr = getattr(self, "fields_read", None)
+            self.fields_read = set()
             try:
                 b = self.coerce(self.expr(sp.body, st), sp.ret)
+                mut = sorted(f"{rec.name}.{f}" for (rec, f) in self.fields_read if f in rec.mutable)
             finally:
                 self.mode_spec = saved
                 self.limit_spec = None
+                self.fields_read = saved_fr
+            if mut and not getattr(self, "allow_heap_specs", False):
+                # a spec function is a function of its arguments only: a mutable field read inside it would silently denote
+                # the *initial* heap in every state
+                raise ContractError(f"spec function {sp.name} reads mutable field(s) {mut}; write it as a clause macro instead")
             # replace recursive occurrences f(...) by f_lim(...)
             bt = b.t
             for g in limited[sp.name]:
@@ -1686,6 +1843,7 @@ class Engine:
     # the following tables are filled by builtins.install
     attr_handlers: dict[str, Callable[..., V]] = {}
     ctor_handlers: dict[str, Callable[..., V]] = {}
+    contains_handlers: dict[str, Callable[..., Any]] = {}
     func_defaults: dict[str, dict[str, ast.expr]] = {}
     pending_raises: list[tuple[list[Any], Any, str, str]] = []
     limit_spec: Optional[str] = None
